@@ -908,6 +908,7 @@ func propC31(c *Check) {
 	ruleR21_1(c)
 	ruleR01_3(c)
 	ruleR12_3(c)
+	ruleR15_4(c) // a GC rewrite keeps the merge bit of the operands it moves
 }
 
 // ---- C32 ----
@@ -1288,4 +1289,5 @@ func propC32(c *Check) {
 	ruleR32_5(c)
 	ruleR03_1(c)
 	ruleR03_4(c)
+	ruleR29_5(c)
 }
